@@ -27,7 +27,7 @@ LEVEL_TEXT = (
     "Generated multicast histories: synchronisation answered / unanswered / answered twice (same loop iteration on the two sockets, consecutive "
     "iterations, two different keepers) / forged; afterwards genuine and forged TimerNotify and SecureWrapper frames at timer offsets ahead, inside the "
     "synchronisation tolerance, inside the latency tolerance, on the boundary and late, wrong-key / bit-flipped / other-session / nested wrappers, plain "
-    "frames of all 29 body classes, unknown services and garbage, echoes, interleaved with our own sends and idle periods that let the periodic notify "
+    "frames of all 29 body classes, unknown services and garbage, well formed frames cut short / extended / with one octet replaced (plain and inside an authentic wrapper), echoes, interleaved with our own sends and idle periods that let the periodic notify "
     "fire; latency tolerance 100..3000 ms. Histories are sampled, hence exploration."
 )
 LEVEL_NOTE = (
@@ -36,7 +36,8 @@ LEVEL_NOTE = (
     "its timer is above local - latency (frames exactly on the boundary are not judged); a datagram the reference cannot authenticate never changes "
     "current_timer_value() - clock, never completes the synchronisation, never makes us answer with an update notify carrying its tag; after synchronisation the "
     "timer offset never decreases and the timer values of outgoing wrappers never decrease; no delivery raises and nothing reaches the loop exception handler. "
-    "Recorded, not judged: that valid timely wrappers are forwarded (required to be observed), wrappers authentic for another session id, nested / forbidden "
+    "Malformed plain frames that make the shared KNXnet/IP parser raise ValueError/IndexError (property C20) surface here as receive-path-raises-*-on-plain-malformed / -w-inner-malformed; "
+    "frames with DIB/SRP lists are left to C20 (a zero-length DIB hangs instead of raising). Recorded, not judged: that valid timely wrappers are forwarded (required to be observed), wrappers authentic for another session id, nested / forbidden "
     "inner services, role (timekeeper/follower) changes, what happens before the synchronisation finished."
 )
 SHARDS = {"quick": 1, "thorough": 16}
@@ -351,6 +352,7 @@ def run_history(ctx, spec):
                 raw = raw[:pos] + bytes((rng.choice((0, 1, 0x7F, 0x80, 0xFF, rng.randrange(256))),)) + raw[pos + 1 :]
             svc = ref.service_of(raw)
             kinds.append(name)
+            ctx.count("malformed_injected")
             if kind == "plain-malformed":
                 if svc == 0x0955:
                     inject(kind, raw, {"kind": "tn", "authentic": ref.timer_notify_valid(key, raw), "timer": None, "service": svc})
@@ -498,7 +500,7 @@ def run(ctx):
     ctx.require(
         "histories", "delivered_plain", "delivered_tn", "delivered_wrapper", "delivered_garbage", "plain_discovery_forwarded", "plain_other_dropped",
         "valid_timely_wrapper_forwarded", "late_wrapper_dropped", "unauthentic_wrapper_dropped", "tn_authentic", "tn_unauthentic",
-        "timer_moved_by_tn", "timer_moved_by_wrapper", "tx_wrappers", "tx_timer_notifies", "synchronised_as_timekeeper", "synchronised_as_follower", "sends",
+        "timer_moved_by_tn", "timer_moved_by_wrapper", "malformed_injected", "tx_wrappers", "tx_timer_notifies", "synchronised_as_timekeeper", "synchronised_as_follower", "sends",
     )
     n = ctx.scale(700, 12000)
     for i in range(n):
